@@ -609,7 +609,8 @@ TIERS = {
                ((9,), 3, 6, "{1}", '{"a","p","w"}', 3)],
         props=[((1, 2, 3, 4, 6), 2, 3, "{1,2}", ALLW, 3), ((8,), 2, 6, "{1,2}", ALLW, 2), ((9,), 2, 6, "{1,2}", ALLW, 2)],
         export=[(1, 3, 3, "{1}", '{"a","k"}', 1), (7, 3, 3, "{1}", ALLW, 1), (2, 4, 3, "{1}", '{"a"}', 1), (3, 3, 3, "{1}", '{"a","x","y"}', 1),
-                (4, 4, 3, "{1}", '{"a"}', 1), (5, 2, 3, "{1}", '{"a"}', 1), (6, 4, 3, "{1}", '{"a"}', 1), (8, 3, 6, "{1}", '{"a","h"}', 1), (9, 3, 6, "{1}", '{"a"}', 1)],
+                (4, 4, 3, "{1}", '{"a"}', 1), (5, 2, 3, "{1}", '{"a"}', 1), (6, 4, 3, "{1}", '{"a"}', 1), (8, 3, 6, "{1}", '{"a","h"}', 1),
+                (9, 3, 5, "{1}", '{"a"}', 1), (9, 2, 6, "{1}", ALLW, 1)],      # 9: three operations without copies, two with a copy and every slot
         tlc_parallel=10, pool=10),
     "thorough": dict(
         check=[((2, 4, 6), 6, 3, "{1}", '{"a"}', 4), ((3, 7), 6, 3, "{1}", '{"a","x"}', 5), ((1,), 6, 3, "{1}", '{"a"}', 6), ((5,), 5, 3, "{1}", '{"a"}', 4),
